@@ -128,7 +128,15 @@ impl Statement {
                         )));
                     }
                 }
-                let new_value = expr.evaluate(variables)?;
+                let new_value = match expr.evaluate(variables)? {
+                    // a function value is a shared handle: store a copy, so that later definitions
+                    // or deletions through one name do not change what another name is bound to
+                    Value::Function(func) => {
+                        let copy = func.borrow().clone();
+                        Value::from_function(copy)
+                    }
+                    other => other,
+                };
                 variables.insert(identifier.lexeme, Variable::as_variable(new_value));
                 Ok(())
             }
